@@ -14,6 +14,22 @@
 //!       `;`-joined, alternatives `|`-joined, each `x<name>` or `x<name>/<op>/<epoch|none>:x<up>:<x<rev>|none>`);
 //!       the generator fills it in, the worker recomputes it and refuses a request that differs.
 //!   `<assign>` = `-` or `x<pkg>=x<version text>` `,`-joined, package names distinct.
+//!   rel.strict <field text>               -> `strict=<ok|err> view=<k|P> acc=<..> cls=<..|-> sat=<n><a>`
+//!       (Props/C12Strict.lean) acc = per alternative (entries `;`, alternatives `|`, `-` = no entry) what
+//!       the accessors do: `N` = `name()` panics, `V` = `version()` panics, `k` = neither; view = `P` iff
+//!       any of them panics; cls (strict=ok only) = per alternative `o` = operator outside the five
+//!       (`badOp`), `e` = epoch >= 2^32 (`bigEpoch`), `b` = both, `.` = neither — the worker reads it off
+//!       the alternative's printed text, the model off the tree; sat = lossless `satisfied_by` (1/0/P) with
+//!       nothing installed / with every package installed at version `0`.
+//!
+//!   ver.cmpraw <version> <version>        -> `<lt|eq|gt|PANIC>`: `Version::cmp` on two values built LITERALLY
+//!       (`Version { epoch, upstream_version, debian_revision }`, not through `from_str`), each given as
+//!       `<epoch|none>:x<upstream>:<x<revision>|none>`. Model: the byte-index twin `DebVersion.compareB`
+//!       (Model/DebVersionRaw.lean). Oracle only when both values have version characters only
+//!       (`ValidV` of Props/C12Order.lean): dpkg order on the fields, absent revision = "" as in dpkg.
+//!   lk.forms <assign> <name>              -> `m=<v> c=<v> p=<v|->`: `lookup_version(name)` of the three
+//!       `VersionLookup` impls themselves (`HashMap<String, Version>`, a closure, `(String, Version)`),
+//!       `<v>` = `none` or the version as above. Model: `Lookup.ofMap` / `ofFn` / `ofPair`.
 //!
 //! `Relations::satisfied_by` and `Entry::satisfied_by` want `impl VersionLookup + Copy`; neither
 //! `HashMap<String, Version>` nor `(String, Version)` is `Copy`, so those two forms reach the
@@ -84,10 +100,12 @@ fn ref_verrevcmp(a: &[u8], b: &[u8]) -> Ordering {
 }
 
 /// [epoch:]upstream[-revision] per Policy 5.6.12: epoch = digits before the first colon,
-/// revision = after the last hyphen; absent epoch = 0, absent revision = "0"
+/// revision = after the last hyphen; absent epoch = 0, absent revision = "0". An epoch that does not
+/// fit a `u32` is not a valid version (dpkg: "epoch in version is too big", bound `INT_MAX`; the
+/// crate's `Version.epoch` is a `u32`): `None`, the oracle is silent (`a (>= 4294967296:1)`).
 fn ref_split(v: &str) -> Option<(u64, &str, &str)> {
     let (epoch, rest) = match v.find(':') {
-        Some(i) if !v[..i].is_empty() && v[..i].bytes().all(|c| c.is_ascii_digit()) => (v[..i].parse::<u64>().ok()?, &v[i + 1..]),
+        Some(i) if !v[..i].is_empty() && v[..i].bytes().all(|c| c.is_ascii_digit()) => (v[..i].parse::<u32>().ok()? as u64, &v[i + 1..]),
         _ => (0, v),
     };
     let (up, rev) = match rest.rfind('-') {
@@ -288,8 +306,247 @@ fn dec_assign(s: &str) -> Option<Vec<(String, String)>> {
     Some(out)
 }
 
+/// `<epoch|none>:x<upstream>:<x<revision>|none>` -> a `Version` built literally
+fn dec_version_raw(s: &str) -> Option<Version> {
+    let parts: Vec<&str> = s.split(':').collect();
+    if parts.len() != 3 {
+        return None;
+    }
+    let epoch = if parts[0] == "none" { None } else { Some(parts[0].parse::<u32>().ok()?) };
+    let upstream_version = ds(parts[1])?;
+    let debian_revision = if parts[2] == "none" { None } else { Some(ds(parts[2])?) };
+    Some(Version { epoch, upstream_version, debian_revision })
+}
+
+/// version characters only (the image of `Version::from_str` lies inside)
+fn valid_raw(v: &Version) -> bool {
+    v.upstream_version.bytes().all(|c| c.is_ascii_alphanumeric() || b".+:~-".contains(&c))
+        && v.debian_revision.as_deref().map_or(true, |r| r.bytes().all(|c| c.is_ascii_alphanumeric() || b".+~".contains(&c)))
+}
+
+/// `dpkg_version_compare` on the three fields: epoch, `verrevcmp(version)`, `verrevcmp(revision)`
+/// with a missing revision compared as "" (dpkg), not "0" (the crate)
+fn ref_cmp_fields(v: &Version, w: &Version) -> Ordering {
+    v.epoch.unwrap_or(0)
+        .cmp(&w.epoch.unwrap_or(0))
+        .then(ref_verrevcmp(v.upstream_version.as_bytes(), w.upstream_version.as_bytes()))
+        .then(ref_verrevcmp(v.debian_revision.as_deref().unwrap_or("").as_bytes(), w.debian_revision.as_deref().unwrap_or("").as_bytes()))
+}
+
+fn show_lookup(v: Option<Version>) -> String {
+    v.as_ref().map(enc_version).unwrap_or_else(|| "none".to_string())
+}
+
+// ------------------------------------------------------------------ C12Strict: BAD relations
+// (Props/C12Strict.lean: on strict-accepted text `version()` panics exactly on these)
+
+/// (`badOp`, `bigEpoch`) read off the printed text of one alternative of a strict-accepted field: the
+/// first `(` opens the version part `( ws* ops ws* version ws* )`; `ops` is the run of `<`, `>`, `=`
+/// (possibly empty), `version` the run up to white space or `)`.
+fn ref_bad(rel: &str) -> (bool, bool) {
+    let ws = |c: char| c == ' ' || c == '\t' || c == '\r' || c == '\n';
+    let Some(i) = rel.find('(') else { return (false, false) };
+    let inner = rel[i + 1..].trim_start_matches(ws);
+    let op_end = inner.find(|c: char| !"<>=".contains(c)).unwrap_or(inner.len());
+    let op = &inner[..op_end];
+    let rest = inner[op_end..].trim_start_matches(ws);
+    let v_end = rest.find(|c: char| ws(c) || c == ')').unwrap_or(rest.len());
+    let v = &rest[..v_end];
+    let bad_op = !["<<", "<=", "=", ">=", ">>"].contains(&op);
+    // digits ':' …, the digits' value >= 2^32 (compared as a numeral: no machine integer)
+    let d_end = v.find(|c: char| !c.is_ascii_digit()).unwrap_or(v.len());
+    let big = v[d_end..].starts_with(':') && {
+        let d = v[..d_end].trim_start_matches('0');
+        d.len() > 10 || (d.len() == 10 && d >= "4294967296")
+    };
+    (bad_op, big)
+}
+
+/// the `rel.strict` observables and the statements of Props/C12Strict.lean evaluated on the real code
+fn strict_obs(text: &str) -> Resp {
+    let (tree, errs) = LRelations::parse_relaxed(text, false);
+    let strict = LRelations::from_str(text).is_ok();
+    let mut acc: Vec<String> = vec![];
+    let mut cls: Vec<String> = vec![];
+    let mut any_panic = false;
+    let mut name_panic = false;
+    let mut mismatch: Option<String> = None;
+    let mut any_bad = false;
+    let mut first_bad = false;
+    for (ie, e) in tree.entries().enumerate() {
+        let mut ea = String::new();
+        let mut ec = String::new();
+        for (ir, r) in e.relations().enumerate() {
+            let n = guard(|| r.name());
+            let v = guard(|| r.version());
+            let a = if n.is_none() { 'N' } else if v.is_none() { 'V' } else { 'k' };
+            any_panic |= a != 'k';
+            name_panic |= a == 'N';
+            if ir > 0 {
+                ea.push('|');
+                ec.push('|');
+            }
+            ea.push(a);
+            let rt = r.to_string();
+            let (o, b) = ref_bad(&rt);
+            ec.push(match (o, b) {
+                (true, true) => 'b',
+                (true, false) => 'o',
+                (false, true) => 'e',
+                (false, false) => '.',
+            });
+            any_bad |= o || b;
+            if ie == 0 && ir == 0 {
+                first_bad = o || b;
+            }
+            if strict && v.is_none() != (o || b) && mismatch.is_none() {
+                mismatch = Some(format!("version() {} on {:?} but badOp={} bigEpoch={}", if v.is_none() { "panics" } else { "returns" }, rt, o, b));
+            }
+        }
+        acc.push(ea);
+        cls.push(ec);
+    }
+    let join = |v: &Vec<String>| if v.is_empty() { "-".to_string() } else { v.join(";") };
+    let zero = Version::from_str("0").unwrap();
+    let s_none = guard(|| tree.satisfied_by(|_: &str| -> Option<Version> { None }));
+    let s_all = guard(|| tree.satisfied_by(|_: &str| -> Option<Version> { Some(zero.clone()) }));
+    let obs = format!(
+        "strict={} view={} acc={} cls={} sat={}{}",
+        if strict { "ok" } else { "err" },
+        if any_panic { 'P' } else { 'k' },
+        join(&acc),
+        if strict { join(&cls) } else { "-".to_string() },
+        show(s_none),
+        show(s_all)
+    );
+    // the theorems on the real code. The panics themselves (operator outside the five, epoch >= 2^32 in a
+    // text `from_str` accepted) are a KNOWN observation (audit C12 D3), an observable, not a violation.
+    let mut fail = None;
+    if strict != errs.is_empty() {
+        fail = Some("from_str.is_ok() != parse_relaxed errors.is_empty()".to_string());
+    } else if strict {
+        if name_panic {
+            fail = Some("C12_strict_name_total: name() panics on strict-accepted text".to_string());
+        } else if let Some(m) = mismatch {
+            fail = Some(format!("C12_strict_version_panic_iff: {}", m));
+        } else if any_panic != any_bad {
+            fail = Some(format!("C12_strict_view_panic_iff: view panics={} any BAD={}", any_panic, any_bad));
+        } else if !any_bad && s_none.is_none() {
+            fail = Some("C12_strict_sat_panic_only_if: satisfied_by panics (nothing installed) without a BAD relation".to_string());
+        } else if first_bad && (s_none.is_some() || s_all.is_some()) {
+            fail = Some("C12_strict_sat_panic_first: first alternative of the first entry is BAD but satisfied_by returns".to_string());
+        }
+    }
+    Resp::with(obs, fail)
+}
+
+/// C12Strict generator family: every operator string over `<`, `>`, `=` of length 0..3 (40) x epochs
+/// {none, 0, 2^32-1, 2^32, 20 digits} x contexts {alone, second alternative, second entry} — all
+/// strict-accepted — as `rel.strict` and, x 4 installations, as `rel.sat` requests; plus layouts and a few error trees
+fn generate_c12_strict(out: &mut Out) {
+    let mut ops: Vec<String> = vec![String::new()];
+    let mut last: Vec<String> = vec![String::new()];
+    for _ in 0..3 {
+        let mut next = vec![];
+        for o in &last {
+            for c in ['<', '>', '='] {
+                next.push(format!("{}{}", o, c));
+            }
+        }
+        ops.extend(next.iter().cloned());
+        last = next;
+    }
+    let versions = ["1", "0:1", "4294967295:1", "4294967296:1", "99999999999999999999:1"];
+    let mut texts: Vec<String> = vec![];
+    for op in &ops {
+        for v in versions {
+            let rel = format!("a ({}{}{})", op, if op.is_empty() { "" } else { " " }, v);
+            texts.push(rel.clone());
+            texts.push(format!("b | {}", rel));
+            texts.push(format!("b, {}", rel));
+        }
+    }
+    // layouts of the version part, several BAD relations, the unreachable one of
+    // C12_strict_sat_unreachable_witness, leading zeros, and error trees (no `cls`)
+    for t in [
+        "a, a | a (> 1)", "a (>1)", "a ( > 1 )", "a (>\n 1)", "a(1)", "a (> 1) | a (>= 4294967296:1)", "a (>= 0004294967295:1)",
+        "a (>= 00004294967296:1:2)", "a (>= 4294967296)", "a (>= 4294967296a:1)", "a (>>= 4294967296:1)", "a:any (=> 1) [amd64] <!x>",
+        "a (>= 1), b (<< 2) | c (<> 3)",
+    ] {
+        texts.push(t.to_string());
+    }
+    // error trees: the accessors and the evaluator are observed, no BAD classes (the statement is about
+    // strict-accepted text; `a | | b` is where `name()` panics)
+    for t in ["a (> 1", "a (>= )", "a ()", "a | | b", "a (>= :1)", "a (> 1) b", "a (>= 1:)", "(>= 1)"] {
+        out.req("rel.strict", &[es(t)]);
+    }
+    for t in &texts {
+        out.req("rel.strict", &[es(t)]);
+        for a in [vec![], vec![("a", "1")], vec![("b", "1")], vec![("a", "1"), ("b", "1")]] {
+            sat_req(out, t, &enc_assign(&a));
+        }
+    }
+}
+
 pub fn handle(op: &str, a: &[&str]) -> Option<Resp> {
     match (op, a) {
+        ("ver.cmpraw", [x, y]) => {
+            let v = dec_version_raw(x)?;
+            let w = dec_version_raw(y)?;
+            let real = guard(|| v.cmp(&w));
+            let mut fail = None;
+            if valid_raw(&v) && valid_raw(&w) {
+                let want = ref_cmp_fields(&v, &w);
+                match real {
+                    None => fail = Some(format!("Version::cmp({:?}, {:?}) panics on values with version characters only", v, w)),
+                    Some(r) if r != want => fail = Some(format!("Version::cmp({:?}, {:?}) = {:?}, dpkg order says {:?}", v, w, r, want)),
+                    _ => {}
+                }
+            }
+            let c = match real {
+                Some(Ordering::Less) => "lt",
+                Some(Ordering::Equal) => "eq",
+                Some(Ordering::Greater) => "gt",
+                None => "PANIC",
+            };
+            Some(Resp::with(c.to_string(), fail))
+        }
+        ("lk.forms", [asg, name]) => {
+            let assign_txt = dec_assign(asg)?;
+            let name = ds(name)?;
+            let mut assign: Vec<(String, Version)> = vec![];
+            for (p, v) in &assign_txt {
+                assign.push((p.clone(), Version::from_str(v).ok()?));
+            }
+            // impl VersionLookup for HashMap<String, Version> (lib.rs:115-119)
+            let map: HashMap<String, Version> = assign.iter().cloned().collect();
+            let m = guard(|| map.lookup_version(&name).map(|c| c.into_owned()));
+            // impl<F: Fn(&str) -> Option<Version>> VersionLookup for F (lib.rs:121-128)
+            let closure = |n: &str| -> Option<Version> { assign.iter().find(|(p, _)| p == n).map(|(_, v)| v.clone()) };
+            let c = guard(|| closure.lookup_version(&name).map(|c| c.into_owned()));
+            // impl VersionLookup for (String, Version) (lib.rs:130-138)
+            let p = if assign.len() == 1 {
+                let pair: (String, Version) = assign[0].clone();
+                Some(guard(|| pair.lookup_version(&name).map(|c| c.into_owned())))
+            } else {
+                None
+            };
+            let sh = |r: Option<Option<Version>>| r.map(show_lookup).unwrap_or_else(|| "PANIC".to_string());
+            let obs = format!("m={} c={} p={}", sh(m.clone()), sh(c.clone()), p.clone().map(sh).unwrap_or_else(|| "-".to_string()));
+            // oracle: the three forms denote the same assignment
+            let want = assign.iter().find(|(q, _)| *q == name).map(|(_, v)| v.clone());
+            let same = |r: &Option<Option<Version>>| match r {
+                Some(got) => got.as_ref().map(enc_version) == want.as_ref().map(enc_version),
+                None => false,
+            };
+            let mut fail = None;
+            if !same(&m) || !same(&c) || p.as_ref().map_or(false, |r| !same(r)) {
+                fail = Some(format!("lookup_version({:?}) differs between the forms / from the assignment: {}", name, obs));
+            }
+            Some(Resp::with(obs, fail))
+        }
+        // Props/C12Strict.lean: the accessors, the BAD classes and two evaluations of one field text
+        ("rel.strict", [t]) => Some(strict_obs(&ds(t)?)),
         ("ver.cmp", [x, y]) => {
             let x = ds(x)?;
             let y = ds(y)?;
@@ -563,6 +820,24 @@ pub const VERSIONS: [&str; 64] = [
 
 const OPS: [&str; 5] = ["<<", "<=", "=", ">=", ">>"];
 
+/// (epoch, upstream, revision) of `Version` values built literally
+pub const RAW_VERSIONS: [(Option<u32>, &str, Option<&str>); 40] = [
+    (None, "1", None), (None, "1.0", None), (None, "1.0~rc1", None), (None, "", None), (None, "0", None), (None, "00", None),
+    (None, "~", None), (None, "a", None), (None, "+", None), (None, "1-1", None), (None, "2147483647", None),
+    (None, "2147483648", None), (None, "\u{e9}", None), (None, "\u{e9}1", None), (None, "\u{e9}\u{e9}1", None),
+    (None, "\u{e9}\u{e9}\u{e9}1", None), (None, "1\u{e9}", None), (None, "1\u{e9}2", None), (None, "\u{20ac}1", None),
+    (None, "\u{20ac}\u{20ac}\u{20ac}1", None), (None, "a\u{20ac}1", None), (None, "\u{1d11e}1", None),
+    (None, "\u{1d11e}\u{1d11e}\u{1d11e}\u{1d11e}1", None), (None, "\u{ff11}", None), (None, "\u{e9}.1", None),
+    (None, "\u{e9}2147483648", None), (None, "\u{e9}\u{e9}2147483648", None), (None, "1.0", Some("0")), (None, "1.0", Some("")),
+    (None, "1.0", Some("1")), (None, "1.0", Some("\u{e9}1")), (None, "1.0", Some("1-1")), (None, "1.0", Some("~")),
+    (None, "1.0", Some("\u{e9}\u{e9}1")), (Some(0), "1.0", None), (Some(1), "0", None), (Some(1), "\u{e9}1", None),
+    (Some(4294967295), "1", None), (None, "1 0", None), (None, "\u{0}1", None),
+];
+
+fn enc_raw(v: &(Option<u32>, &str, Option<&str>)) -> String {
+    format!("{}:{}:{}", v.0.map(|e| e.to_string()).unwrap_or_else(|| "none".to_string()), es(v.1), eopt(v.2))
+}
+
 /// relative positions of an installed version to the required `1.0-1`
 const POSITIONS: [(&str, &[&str]); 4] = [
     ("absent", &[]),
@@ -583,6 +858,28 @@ pub fn generate_c12(tier: &str, seed: u64, out: &mut Out) {
     // version texts around the validity border
     for v in ["", "-", ":", "1:", ":1", "a:1", "1_0", "1 0", "4294967296:1", "4294967295:1", "1.0-", "-1", "1-", "é"] {
         out.req("ver.cmp", &[es(v), es("1")]);
+    }
+    // ---- 1b. values built literally (fields are `pub`): non-ASCII before / between / after digits,
+    //      empty fields, hyphens in the revision, numbers around i32::MAX — all pairs
+    for a in RAW_VERSIONS {
+        for b in RAW_VERSIONS {
+            out.req("ver.cmpraw", &[enc_raw(&a), enc_raw(&b)]);
+        }
+    }
+    // ---- 1c. the three `VersionLookup` impls themselves, name by name
+    let lk_assigns: [&[(&str, &str)]; 7] = [
+        &[],
+        &[("a", "1")],
+        &[("A", "1")],
+        &[("a:amd64", "2")],
+        &[("a", "1"), ("b", "2:0")],
+        &[("a", "1"), ("a:amd64", "9"), ("A", "3")],
+        &[("", "1")],
+    ];
+    for asg in lk_assigns {
+        for n in ["a", "A", "b", "a:amd64", "", "a ", "\u{e9}", "ab"] {
+            out.req("lk.forms", &[enc_assign(asg), es(n)]);
+        }
     }
     // ---- 2. the complete decision table for one relation
     for op in OPS {
@@ -754,4 +1051,6 @@ pub fn generate_c12(tier: &str, seed: u64, out: &mut Out) {
         }
         sat_req(out, &f, &enc_assign(&a));
     }
+    // ---- 6. operators outside the five and epochs around 2^32 in strict-accepted text (Props/C12Strict.lean)
+    generate_c12_strict(out);
 }
